@@ -21,13 +21,19 @@ def fixes():
 
 def seeded():
     rows = ['| seeded change | property | origin | what it breaks / needs (short) | quick check |', '|---|---|---|---|---|']
-    n = caught = 0
+    global firstcaught
+    n = caught = firstcaught = 0
     for sid in sorted(os.listdir(V + '/seeded')):
         mp = os.path.join(V, 'seeded', sid, 'meta.json')
         if not os.path.exists(mp): continue
         m = json.load(open(mp))
         res = m.get('quick_check_result') or {}
         st = ', '.join('%s: %s' % (p, 'caught' if r.get('caught') else 'MISSED') for p, r in sorted(res.items())) or m.get('result', '?')
+        if m.get('outside_statement'):
+            st = st.replace('MISSED', 'silent by design (the change does not break the statement, see meta.json)')
+        first = m.get('first_quick_check_result') or {}
+        if first and any(not r.get('caught') for r in first.values()) and all(r.get('caught') for r in res.values()):
+            st += ' (missed at first run; caught after the check was strengthened)'
         short = m.get('breaks') or ''
         if not short:
             np_ = os.path.join(V, 'seeded', sid, 'notes.txt')
@@ -37,7 +43,9 @@ def seeded():
         origin = 'independent agent' if 'independent' in m.get('origin', '') else 'reverse of a fix'
         rows.append('| `%s` | %s | %s | %s | %s |' % (sid, m['property'], origin, short.replace('|', '\\|'), st))
         n += 1; caught += all(r.get('caught') for r in res.values()) if res else 0
-    return '%d seeded changes, %d caught by the quick tier of their property\'s check (state of the last `tools/seeded.py` runs recorded in each meta.json).\n\n' % (n, caught) + '\n'.join(rows)
+        firstcaught += all(r.get('caught') for r in (m.get('first_quick_check_result') or res).values()) if res else 0
+    return ('%d seeded changes; %d were caught by the quick tier the first time it was run against them, %d are caught now '
+            '(state of the last `tools/seeded.py refresh` recorded in each meta.json).\n\n' % (n, firstcaught, caught)) + '\n'.join(rows)
 
 def asbuilt():
     rows = ['| id | tier | layers (cases) | cases | executions | distinct non-trivial | distinct outcomes | unspecified | exhaustive | wall s |', '|---|---|---|---|---|---|---|---|---|---|']
